@@ -43,7 +43,9 @@ Inductive case :=
 | Diff (op desc : string) (base : outcome) (alts : list (string * outcome))
 (* Add/Sub/Mul on integer values: shapes, elements, the normal result and the in-place
    results (position of the owned operand, result) -- compared with the model *)
-| Bin (op : binop) (sa sb : list N) (xa xb : list Z) (normal : bres Z) (alts : list (N * bres Z)).
+| Bin (op : binop) (sa sb : list N) (xa xb : list Z)
+      (cbt : bool)   (* rten_tensor's answer to b.can_broadcast_to(a.shape()) *)
+      (normal : bres Z) (alts : list (N * bres Z)).
 
 (* what the model computes for a Bin case: the operator's normal function, and what
    run_in_place returns when the operand at [pos] is the owned one *)
@@ -59,7 +61,8 @@ Definition model_in_place (o : binop) (pos : N) (sa sb : list N) (xa xb : list Z
 Definition agree (c : case) : bool :=
   match c with
   | Diff _ _ _ _ => true
-  | Bin o sa sb xa xb normal alts =>
+  | Bin o sa sb xa xb cbt normal alts =>
+      Bool.eqb cbt (can_run_in_place sa sb) &&
       bres_eqb normal (model_normal o sa sb xa xb) &&
       forallb (fun a => bres_eqb (snd a) (model_in_place o (fst a) sa sb xa xb)) alts
   end.
@@ -70,8 +73,8 @@ Definition prop_ok (c : case) : bool :=
   match c with
   | Diff _ _ (OOk vs) alts => forallb (fun a => outcome_eqb (snd a) (OOk vs)) alts
   | Diff _ _ _ _ => true
-  | Bin _ _ _ _ _ (BOk s v) alts => forallb (fun a => bres_eqb (snd a) (BOk s v)) alts
-  | Bin _ _ _ _ _ _ _ => true
+  | Bin _ _ _ _ _ _ (BOk s v) alts => forallb (fun a => bres_eqb (snd a) (BOk s v)) alts
+  | Bin _ _ _ _ _ _ _ _ => true
   end.
 
 (* names of the alternatives that differ from the reference run + the model's answer *)
@@ -79,7 +82,7 @@ Definition show (c : case) : list string * option (bres Z) :=
   match c with
   | Diff _ _ base alts =>
       (map fst (filter (fun a => negb (outcome_eqb (snd a) base)) alts), None)
-  | Bin o sa sb xa xb _ _ => ([], Some (model_normal o sa sb xa xb))
+  | Bin o sa sb xa xb _ _ _ => ([], Some (model_normal o sa sb xa xb))
   end.
 
 (* ---- closeness in units of the last place (used only to CLASSIFY a failure of [prop_ok] as
